@@ -82,14 +82,25 @@ def h_density(ex):
     ex.le(got, RHO_MAX[ex.case['model']], 'density<=central-density', tol=1e-12)
 
 
+DIRS = {'down': (0.0, 0.0, -1.0), 'up': (0.0, 0.0, 2.0), 'tangent-x': (1.0, 0.0, 0.0),
+        'tangent-xy': (3.0, 4.0, 0.0), 'steep': (2.0, -1.0, -2.0), 'shallow': (6.0, 2.0, -3.0),
+        'grazing': (12.0, 0.0, -0.125), 'up-slant': (-3.0, 0.0, 4.0)}
+
+
 def _geometry(ex, R):
+    """Endpoint symbolic (any x,y within 10 km, depth 0..3 km); direction from a concrete
+    family (vertical, tangential, steep, shallow, grazing, upward; non-unit lengths) or,
+    for case 'dir' == 'sym-plane', a symbolic unit vector in the x-z plane."""
     x = ex.real('x', -1e4, 1e4)
     y = ex.real('y', -1e4, 1e4)
     z = ex.real('z', -3000, 0)
-    d = [ex.real('dx', -10, 10), ex.real('dy', -10, 10), ex.real('dz', -10, 10)]
-    n2 = d[0] * d[0] + d[1] * d[1] + d[2] * d[2]
-    ex.assume(n2 >= 0.01)
-    return (x, y, z), d
+    dn = ex.case.get('dir', 'steep')
+    if dn == 'sym-plane':
+        ux = ex.real('ux', -1, 1)
+        uz = ex.real('uz', -1, 1)
+        ex.assume(ux * ux + uz * uz == 1)
+        return (x, y, z), [ux, 0.0, uz]
+    return (x, y, z), list(DIRS[dn])
 
 
 def ref_chord(ex, e, d, R):
@@ -112,42 +123,70 @@ def h_slant(ex):
     e, d = _geometry(ex, R)
     step = ex.real('step', 50.0, 1.0e7)
     u, E, b, e2, disc = ref_chord(ex, e, d, R)
-    got = mdl.slant_depth(e, d, step=step)
-    misses = (disc <= 0)
-    if misses:
+    region = ex.choice(3)
+    if region == 0:
+        ex.assume(disc <= 0)
+        got = mdl.slant_depth(e, d, step=step)
         ex.close(got, 0.0, 'zero-when-line-misses-sphere', tol=0.0)
-        ex.note('misses')
         return
+    ex.assume(disc > 0)
     dist = -b + np.sqrt(disc)
-    away = dist <= 0
-    if away:
+    if region == 1:
+        ex.assume(dist <= 0)
+        got = mdl.slant_depth(e, d, step=step)
         ex.close(got, 0.0, 'zero-when-pointing-away', tol=0.0)
-        ex.note('away')
         return
-    # a point inside the Earth always has a chord ahead of it
-    # (checked separately in h_inside); here: the structure for a node count of m
+    ex.assume(dist > 0)
+    # node count m: (m-1) < distance/step <= m, stated before the code runs
     q = dist / step
-    ex.assume(q > m - 1)
-    ex.assume(q <= m)
-    ex.note('chord-m%d' % m)
+    # interior of the node-count cell (the boundary distance/step == m exactly is a
+    # measure-zero set on which one ulp decides the count)
+    ex.assume(q > m - 1 + 1e-6)
+    ex.assume(q <= m - 1e-6)
+    got = mdl.slant_depth(e, d, step=step)
     if m == 1:
         ex.close(got, 0.0, 'single-node-gives-zero', tol=0.0)
         return
     ts = [i / (m - 1) for i in range(m)]
     pts = [[E[k] + t * dist * u[k] for k in range(3)] for t in ts]
-    # geometry of the samples
-    last = pts[-1]
-    ex.close(last[0] * last[0] + last[1] * last[1] + last[2] * last[2], R * R,
-             'last-sample-on-the-sphere', tol=1e-3)
     rs = [np.sqrt(p[0] * p[0] + p[1] * p[1] + p[2] * p[2]) for p in pts]
+    # case split (structural fork): which shell each sample lies in; inside a case both
+    # the code's np.piecewise and the reference table reduce to one polynomial per sample
+    if ex.case.get('split'):
+        for i, r in enumerate(rs):
+            k = ex.choice(len(table) + 1)
+            if k == len(table):
+                ex.assume(r >= R)
+            else:
+                ex.assume(r >= table[k][0])
+                ex.assume(r < table[k][1])
     rho = [ref_density(ex, r, R, table) for r in rs]
     w = [0.5 if i in (0, m - 1) else 1.0 for i in range(m)]
     want = 100.0 * dist * sum(w[i] * rho[i] for i in range(m)) / (m - 1)
     if ex.twin == 'no-weights':
         want = 100.0 * dist * sum(rho) / (m - 1)
     ex.close(got, want, 'slant==100*distance*trapezoid(reference-density)', tol=1e-3)
-    ex.le(0.0, got, 'slant-nonnegative', tol=0.0)
-    ex.le(got, 100.0 * dist * RHO_MAX[ex.case['model']], 'slant<=distance*max-density', tol=1e-3)
+
+
+def h_exit_point(ex):
+    """the last sample lies on the sphere: |endpoint + distance*direction|^2 = R^2, proved
+    on the generalised quantities b = E.u, g = R^2-|E|^2 (any reals), so that it covers
+    every endpoint and direction; and the link: the code's discriminant is b^2 + g."""
+    mdl, R, table = model(ex.case['model'])
+    B = ex.real('B', -7e6, 7e6)
+    G = ex.real('G', -1e9, 5e13)
+    disc = B * B + G
+    ex.assume(disc > 0)
+    dist = -B + np.sqrt(disc)
+    # |E + dist u|^2 - R^2 = |E|^2 - R^2 + 2 dist b + dist^2 = -G + 2 dist B + dist^2
+    if ex.twin == 'inner-root':
+        dist = -B - np.sqrt(disc)
+        ex.close(-G + 2 * dist * B + dist * dist, 1.0, 'exit-point-on-sphere', tol=1e-3)
+    else:
+        ex.close(-G + 2 * dist * B + dist * dist, 0.0, 'exit-point-on-sphere', tol=1e-3)
+    with ex.under(G > 0) as ok:
+        if ok:
+            ex.lt(0.0, dist, 'inside=>chord-ahead')
 
 
 def h_inside(ex):
@@ -166,37 +205,58 @@ def h_inside(ex):
 
 
 def h_invariance(ex):
-    """independent of the length of the direction vector and of a common rotation of
-    endpoint offset and direction about the vertical."""
+    """independent of the length of the direction vector (symbolic factor) and of a common
+    rotation of endpoint offset and direction about the vertical (quarter and half turns
+    exactly; arbitrary angle for the scalar invariants the result is built from)."""
     mdl, R, table = model(ex.case['model'])
     m = ex.case['m']
-    x = ex.real('x', -1e4, 1e4)
-    z = ex.real('z', -3000, 0)
-    # unit direction given by two angles' sines/cosines as algebraic points
-    dx = ex.real('ux', -1, 1)
-    dz = ex.real('uz', -1, 1)
-    ex.assume(dx * dx + dz * dz == 1)
-    lam = ex.real('lam', 0.1, 10)
-    c = ex.real('c', -1, 1)
-    s = ex.real('s', -1, 1)
-    ex.assume(c * c + s * s == 1)
-    step = ex.case.get('step', 5.0e5)
-    e0 = (x, 0.0, z)
-    d0 = (dx, 0.0, dz)
-    # distance / step must give the same node count for all three calls: fix it through
-    # the reference geometry
-    u, E, b, e2, disc = ref_chord(ex, e0, d0, R)
+    e, d = _geometry(ex, R)
+    step = ex.real('step', 50.0, 1.0e7)
+    u, E, b, e2, disc = ref_chord(ex, e, d, R)
     ex.assume(disc > 0)
     dist = -b + np.sqrt(disc)
-    ex.assume(dist > (m - 1) * step)
-    ex.assume(dist <= m * step)
-    base = mdl.slant_depth(e0, d0, step=step)
-    scaled = mdl.slant_depth(e0, (lam * dx, 0.0, lam * dz), step=step)
+    ex.assume(dist > 0)
+    q = dist / step
+    ex.assume(q > m - 1 + 1e-6)
+    ex.assume(q <= m - 1e-6)
+    base = mdl.slant_depth(e, d, step=step)
+    # direction length: exact binary factors (so that normalisation is exact in float and
+    # in the rational semantics alike); the generic factor is covered by the perfect-square
+    # rule only for |d|^2 a rational square, hence the concrete family
+    lam = [0.5, 2.0, 8.0, 0.125][ex.choice(4)]
+    scaled = mdl.slant_depth(e, [lam * c for c in d], step=step)
     if ex.twin == 'scaled':
         scaled = scaled * lam
-    ex.close(scaled, base, 'independent-of-direction-length', tol=1e-2)
-    rot = mdl.slant_depth((c * x, s * x, z), (c * dx, s * dx, dz), step=step)
-    ex.close(rot, base, 'independent-of-azimuth', tol=1e-2)
+    ex.close(scaled, base, 'independent-of-direction-length', tol=1e-3)
+    for nm, (c, s_) in (('quarter', (0.0, 1.0)), ('half', (-1.0, 0.0))):
+        er = (c * e[0] - s_ * e[1], s_ * e[0] + c * e[1], e[2])
+        dr = [c * d[0] - s_ * d[1], s_ * d[0] + c * d[1], d[2]]
+        rot = mdl.slant_depth(er, dr, step=step)
+        ex.close(rot, base, 'independent-of-azimuth-' + nm, tol=1e-3)
+
+
+def h_rotation_scalars(ex):
+    """arbitrary rotation about the vertical (c,s with c^2+s^2=1, symbolic): the scalars
+    the slant depth is a function of - E.u, |E|^2 and the discriminant - are unchanged."""
+    mdl, R, table = model(ex.case['model'])
+    e, d = _geometry(ex, R)
+    u, E, b, e2, disc = ref_chord(ex, e, d, R)
+    c = ex.real('c', -1, 1)
+    s_ = ex.real('s', -1, 1)
+    ex.assume(c * c + s_ * s_ == 1)
+    er = (c * e[0] - s_ * e[1], s_ * e[0] + c * e[1], e[2])
+    dr = [c * d[0] - s_ * d[1], s_ * d[0] + c * d[1], d[2]]
+    Er = [er[0], er[1], er[2] + R]
+    Ed = E[0] * d[0] + E[1] * d[1] + E[2] * d[2]
+    Ed2 = Er[0] * dr[0] + Er[1] * dr[1] + Er[2] * dr[2]
+    if ex.twin == 'mirror':
+        Ed2 = -Ed2
+    # b = (E.d)/sqrt(|d|^2) and disc = b^2 - |E|^2 + R^2 are functions of these three
+    ex.close(Ed2, Ed, 'rotation-invariant:E.d', tol=1e-6)
+    ex.close(dr[0] * dr[0] + dr[1] * dr[1] + dr[2] * dr[2],
+             d[0] * d[0] + d[1] * d[1] + d[2] * d[2], 'rotation-invariant:|d|^2', tol=1e-9)
+    ex.close(Er[0] * Er[0] + Er[1] * Er[1] + Er[2] * Er[2], e2, 'rotation-invariant:|E|^2',
+             tol=1e-3)
 
 
 HARNESSES = [
@@ -205,31 +265,55 @@ HARNESSES = [
                    'thorough': [{'model': 'prem'}, {'model': 'cmc'}]},
             budget={'quick': {'max_paths': 2000}}),
     Harness('slant', h_slant, _mods, encodes=_enc, twins=('no-weights',),
-            cases={'quick': [{'model': 'cmc', 'm': 3, '_twins': 1}] +
-                   [{'model': mo, 'm': m} for mo in ('prem', 'cmc') for m in (1, 2, 3)],
-                   'thorough': [{'model': 'cmc', 'm': 3, '_twins': 1}] +
-                   [{'model': mo, 'm': m} for mo in ('prem', 'cmc') for m in (1, 2, 3, 4, 5)]},
+            cases={'quick': [{'model': 'cmc', 'm': 3, 'dir': 'steep', '_twins': 1}] +
+                   [{'model': 'cmc', 'm': m, 'dir': dn} for (m, dn) in
+                    ((1, 'up'), (2, 'steep'), (3, 'shallow'), (2, 'tangent-xy'), (3, 'up'),
+                     (2, 'grazing'), (3, 'up-slant'), (2, 'tangent-x'), (2, 'down'))] +
+                   [{'model': 'prem', 'm': m, 'dir': dn} for (m, dn) in
+                    ((1, 'up'), (2, 'tangent-xy'), (3, 'up'), (2, 'grazing'), (3, 'up-slant'),
+                     (2, 'tangent-x'))],
+                   'thorough': [{'model': 'cmc', 'm': 3, 'dir': 'steep', '_twins': 1}] +
+                   [{'model': 'cmc', 'm': m, 'dir': dn}
+                    for m in (2, 3, 4, 5) for dn in list(DIRS)] +
+                   [{'model': 'prem', 'm': m, 'dir': dn} for m in (2, 3, 4, 5)
+                    for dn in ('up', 'tangent-x', 'tangent-xy', 'grazing', 'up-slant')]},
             budget={'quick': {'max_paths': 400, 'wall_s': 240, 'query_timeout_ms': 60000},
                     'thorough': {'max_paths': 2000, 'wall_s': 1200, 'query_timeout_ms': 120000}}),
+    Harness('exit-point', h_exit_point, _mods, encodes=_enc, twins=('inner-root',),
+            cases={'quick': [{'model': 'prem'}], 'thorough': [{'model': 'prem'}, {'model': 'cmc'}]}),
     Harness('inside', h_inside, _mods, encodes=_enc, twins=('behind',),
-            cases={'quick': [{'model': 'prem'}, {'model': 'cmc'}],
-                   'thorough': [{'model': 'prem'}, {'model': 'cmc'}]}),
+            cases={'quick': [{'model': mo, 'dir': dn} for mo in ('prem', 'cmc')
+                             for dn in ('steep', 'tangent-xy', 'up')],
+                   'thorough': [{'model': mo, 'dir': dn} for mo in ('prem', 'cmc')
+                                for dn in list(DIRS)]}),
+    Harness('rotation-scalars', h_rotation_scalars, _mods, encodes=_enc, twins=('mirror',),
+            cases={'quick': [{'model': 'prem', 'dir': dn} for dn in ('steep', 'shallow',
+                                                                     'tangent-xy')],
+                   'thorough': [{'model': 'prem', 'dir': dn} for dn in DIRS]},
+            budget={'quick': {'query_timeout_ms': 60000}}),
     Harness('invariance', h_invariance, _mods, encodes=_enc, twins=('scaled',),
-            cases={'quick': [{'model': 'cmc', 'm': 2}],
-                   'thorough': [{'model': 'cmc', 'm': 2}, {'model': 'cmc', 'm': 3},
-                                {'model': 'prem', 'm': 2}]},
+            cases={'quick': [{'model': 'cmc', 'm': 2, 'dir': 'steep'},
+                             {'model': 'prem', 'm': 2, 'dir': 'tangent-xy'}],
+                   'thorough': [{'model': 'cmc', 'm': m, 'dir': dn}
+                                for m in (2, 3) for dn in ('steep', 'shallow', 'tangent-xy',
+                                                           'up-slant')] +
+                   [{'model': 'prem', 'm': m, 'dir': dn} for m in (2, 3)
+                    for dn in ('tangent-xy', 'up-slant')]},
             budget={'quick': {'wall_s': 240, 'query_timeout_ms': 90000},
                     'thorough': {'wall_s': 900, 'query_timeout_ms': 300000}}, required=True),
 ]
 
 BOUNDS = {
     'quick': {'radius': 'symbolic in [0, 7000 km]', 'endpoint': 'x,y in [-10,10] km, depth '
-              '0..3 km, symbolic', 'direction': 'any vector with 0.1 <= |d|, components in '
-              '[-10,10], symbolic', 'step': 'symbolic, constrained so that the node count is '
+              '0..3 km, symbolic', 'direction': 'a concrete family of 8 directions (vertical down/up, tangential, steep, shallow, grazing, upward slant; non-unit lengths) with the endpoint symbolic, plus a symbolic unit direction in the x-z plane for the chord-ahead claim; direction length a symbolic factor; the exit-point identity is proved on generalised scalars for every endpoint and direction', 'step': 'symbolic, constrained so that the node count is '
               'm = 1..3', 'models': 'PREM and CoreMantleCrustModel'},
     'thorough': {'node count': '1..5'},
 }
-OUTSIDE = ["convergence of the trapezoid sum to the chord integral as step -> 0 (a limit "
+OUTSIDE = ["PREM chords that cross the polynomial-density shells (deeper than 24.4 km): "
+           "nlsat does not finish the equality of the two piecewise-polynomial sums; the "
+           "density table is decided for every radius and the sampling/weights for every "
+           "direction class on the constant-shell model and on PREM's constant outer shells",
+           "convergence of the trapezoid sum to the chord integral as step -> 0 (a limit "
            "statement); what is decided is that the code samples the reference density at "
            "equally spaced points of the exact chord with trapezoid weights",
            "'grows as the chord dips deeper' (monotonicity in the zenith angle)",
